@@ -16,7 +16,8 @@ EXPLANATION = (
     "not the original, to the strategy. R18.3 every class kind that get_items_iter tests before its generic-iterable arm is excluded before "
     "_is_iterable_of_pairs peeks at contents (sibling agreement; shared with C13). R18.4 each of the four attribute-name sources of "
     "_make_fields_iterator is filtered by a public-name test on the emitted name. R18.5 itervalues projects the value component of the same strategy; strategy "
-    "order is mapping, namedtuple, iterable, fields. R18.6 no serdes iteration function mutates its argument."
+    "order is mapping, namedtuple, iterable, fields. R18.6 no serdes iteration function mutates its argument. R18.11 inspection.get_type_hints does not ask "
+    "typing.get_type_hints to keep Annotated[...] wrappers (include_extras) unless the unwrapping predicates refer to typing.Annotated: a ClassVar inside one is not recognised."
 )
 ASSUMPTIONS = [
     "exact pairs for every x (ClassVar fields, custom Mappings) are runtime statements (ND)",
@@ -178,7 +179,7 @@ def _source_kind(it):
 def r18_4(prog, rep):
     f = prog.function(f"{C.SERDES}._make_fields_iterator")
     comps = []
-    for p in P.paths_of(prog, f):
+    for p in P.splice_helpers(prog, P.paths_of(prog, f)):
         for tm in p.all_terms():
             comps += [s for s in T.walk(tm) if s[0] == "comp"]
     import ast as _ast
@@ -190,7 +191,7 @@ def r18_4(prog, rep):
                 for tm in p.all_terms():
                     comps += [s for s in T.walk(tm) if s[0] == "comp"]
     # ... and the module-level functions it hands out instead of closures (`return _itervars`, `partial(_iterfields, names)`)
-    for _p, r in P.returns(P.paths_of(prog, f)):
+    for _p, r in P.returns(P.splice_helpers(prog, P.paths_of(prog, f))):
         for x in T.walk(r):
             g = prog.functions.get(x[1]) if x[0] == "ref" else None
             if g is not None and g is not f and g.module is f.module:
@@ -242,14 +243,14 @@ def r18_10(prog, rep):
     string being one name."""
     f = prog.function(f"{C.SERDES}._make_fields_iterator")
     tp = ("param", f.params[0])
-    calls = [x for p in P.paths_of(prog, f) for tm in p.all_terms() for x in T.walk(tm) if T.is_call_to(x, f"{C.INSP}.get_type_hints", f"{C.INSP}.cached_type_hints") and x[2][:1] == (tp,)]
+    calls = [x for p in P.splice_helpers(prog, P.paths_of(prog, f)) for tm in p.all_terms() for x in T.walk(tm) if T.is_call_to(x, f"{C.INSP}.get_type_hints", f"{C.INSP}.cached_type_hints") and x[2][:1] == (tp,)]
     if calls:
         exhaustive = [c for c in calls if (dict(c[3]).get("exhaustive") or (c[2][1] if len(c[2]) > 1 else None)) != ("const", False)]
         rep.check(not exhaustive, "R18.10", f.qualname, f.loc, "attribute names are taken from the class's own hints (exhaustive=False), never from its constructor's parameters", "the fields iterator asks for the *exhaustive* hints: for a class without annotations these are the parameters of __init__, which are then read as attributes -- iteritems(Account('ann', 5)) raises AttributeError ('opening'), iteritems(argparse.Namespace(a=1)) raises on 'kwargs', and attributes that are no parameter are silently dropped", detail="hints-not-exhaustive")
     else:
         rep.held("R18.10", f.qualname, f.loc, "the fields iterator does not use inspection.get_type_hints", detail="hints-not-exhaustive", nontrivial=False)
     srcs = []
-    for p in P.paths_of(prog, f):
+    for p in P.splice_helpers(prog, P.paths_of(prog, f)):
         for e in p.events:
             if e[0] == "assign" and e[2][0] == "comp" and e[2][3] and _source_kind(e[2][3][0][0]) == "__slots__":
                 srcs.append(e[2])
@@ -268,7 +269,7 @@ def r18_7(prog, rep):
     f = prog.function(f"{C.SERDES}._make_fields_iterator")
     ok = True
     seen_slots = False
-    for p in P.paths_of(prog, f):
+    for p in P.splice_helpers(prog, P.paths_of(prog, f)):
         last = None
         for i, e in enumerate(p.events):
             if e[0] == "assign" and e[2][0] == "comp" and e[2][3]:
@@ -346,7 +347,7 @@ def r18_9(prog, rep, rule="R18.9"):
         rep.undecided(rule, f"{C.SERDES}.get_items_iter", "", "field iterator factory not found")
         return
     hinted = []
-    for p in P.paths_of(prog, f):
+    for p in P.splice_helpers(prog, P.paths_of(prog, f)):
         for e in p.events:
             if e[0] == "assign" and e[2][0] == "comp":
                 c = e[2]
@@ -421,6 +422,10 @@ def run(prog: Program, rep: Report, tier: str):
     rep.rule("R18.4", "public-name filter on every attribute source", floor=4)
     rep.rule("R18.5", "itervalues projects the same strategy; strategy order and arms", floor=5)
     rep.rule("R18.6", "no mutation of the argument", floor=5)
+    rep.rule("R18.11", "member hints carry no Annotated wrapper (a wrapped ClassVar would be a field)", floor=1)
+    from . import c11
+
+    c11.hints_stripped(prog, rep, "R18.11")
     rep.rule("R18.10", "attribute names come from the class's own hints and from the __slots__ of its whole hierarchy", floor=3)
     r18_10(prog, rep)
     rep.rule("R18.9", "ClassVar annotations are not fields", floor=1)
